@@ -39,6 +39,15 @@ def engineModel (eng : String) (args : List String) : Option String :=
   | "tfid" => Eng.tfidModel args
   | "audit" => Eng.auditModel args
   | "auditiso" => Eng.auditIsoModel args
+  | "reader" =>
+    -- C05_readers_dead: a reader handed out before Close yields nothing afterwards; the probe's own
+    -- reader yields the probe's body up to the limit (C10)
+    (match args with
+     | [lim, _, _, _, probe, _] => do
+       let l ← lim.toNat?
+       let b ← Coraza.Bytes.ofField probe
+       pure s!"stale=- probe={Coraza.Bytes.toField (b.take l)}"
+     | _ => none)
   | "decode" => Decode.model args
   | "http" => Http.model args
   | "parse" => Parse.model args
@@ -54,6 +63,7 @@ def engineJudge (prop eng : String) (args obs : List String) : Bool :=
   | "eng" => Eng.judge args obs && (prop != "C01" || (Eng.specViolation args).isNone)
   | "engrep" => Eng.judge args obs
   | "audit" => (match Eng.auditModel args with | some m => m == " ".intercalate obs | none => !obs.contains "PANIC")
+  | "reader" => (match engineModel "reader" args with | some m => m == " ".intercalate obs | none => false)
   | "auditiso" => (match Eng.auditIsoModel args with | some m => m == " ".intercalate obs | none => !obs.contains "PANIC")
   | "auditconc" =>
     -- C19_no_interleave on the observed file: every line a whole record, none lost
